@@ -76,7 +76,23 @@ pub fn enc<T: Wire>(fmt: Fmt, v: &T) -> Result<Vec<u8>, String> {
 pub fn dec<T: Wire>(fmt: Fmt, b: &[u8]) -> Result<T, String> {
     match fmt {
         Fmt::Bin => T::from_bin(b),
-        Fmt::Json => serde_json::from_slice(b).map_err(|e| format!("json: {e}")),
+        Fmt::Json => {
+            // a restarted node may load its state from a byte slice or from a stream (file, socket): the slice decoder can lend
+            // parts of its input, the stream decoder cannot - both must accept the same documents
+            let from_slice: Result<T, String> = serde_json::from_slice(b).map_err(|e| format!("json: {e}"));
+            let from_reader: Result<T, String> = serde_json::from_reader(std::io::Cursor::new(b)).map_err(|e| format!("json (reader): {e}"));
+            match (from_slice, from_reader) {
+                (Ok(x), Ok(y)) => {
+                    if serde_json::to_vec(&x).ok() != serde_json::to_vec(&y).ok() {
+                        return Err("json: decoding from a slice and from a stream give different values".into());
+                    }
+                    Ok(x)
+                }
+                (Ok(_), Err(e)) => Err(format!("json: decodes from a slice but not from a stream: {e}")),
+                (Err(e), Ok(_)) => Err(format!("json: decodes from a stream but not from a slice: {e}")),
+                (Err(e), Err(_)) => Err(e),
+            }
+        }
     }
 }
 
